@@ -209,5 +209,46 @@ func (w *World) checkC30(certs *scriptedCerts) {
 			}
 		}
 	}
+	// the binding is what is stored now, whichever node changed it: after the hostname was released
+	// (and then bound by another client) through ANOTHER node, the node that served the first owner a
+	// moment ago must refuse it and serve the new owner
+	if len(w.servers) >= 2 {
+		moved := "moved.customer.org"
+		a, b := 0, 1
+		if bind(moved) {
+			pace()
+			if _, err := w.call(owner, a, "GetCertificate", &protocol.KeylessGetCertificateRequest{Hostname: moved, Proof: w.proof(owner, moved, 0)}); err != nil {
+				w.res.Violate("C30", "owner-refused", "the bound client was refused its certificate for %s: %v", moved, err)
+			}
+			pace()
+			if _, err := w.call(owner, b, "ReleaseTunnel", &protocol.ReleaseTunnelRequest{Hostname: moved}); err == nil {
+				pace()
+				if _, err := w.call(owner, a, "GetCertificate", &protocol.KeylessGetCertificateRequest{Hostname: moved, Proof: w.proof(owner, moved, 0)}); err == nil {
+					w.res.Violate("C30", "certificate-served/after-release-through-another-node", "%s was released through node %d; node %d still served its certificate to the former owner", moved, b, a)
+				}
+				pace()
+				if _, err := w.call(owner, a, "Sign", &protocol.KeylessSignRequest{Hostname: moved, Proof: w.proof(owner, moved, 0), Algo: protocol.KeylessSignRequest_SHA256, Digest: make([]byte, 32)}); err == nil {
+					w.res.Violate("C30", "signature-served/after-release-through-another-node", "%s was released through node %d; node %d still signed for the former owner", moved, b, a)
+				}
+				// the other client proves control and becomes the bound one, again through node b
+				name, target := acmespec.GenerateCustomRecord(moved, "acme.example.com", other.Token.GetToken())
+				w.resolver.mu.Lock()
+				w.resolver.answers[name] = target
+				w.resolver.mu.Unlock()
+				pace()
+				if _, err := w.call(other, b, "AcmeValidate", &protocol.ValidateRequest{Hostname: moved, Proof: w.proof(other, moved, 0)}); err == nil {
+					pace()
+					if _, err := w.call(other, a, "GetCertificate", &protocol.KeylessGetCertificateRequest{Hostname: moved, Proof: w.proof(other, moved, 0)}); err != nil {
+						w.res.Violate("C30", "new-owner-refused", "%s is now bound to another client (through node %d), node %d refuses it: %v", moved, b, a, err)
+					}
+					pace()
+					if _, err := w.call(owner, a, "GetCertificate", &protocol.KeylessGetCertificateRequest{Hostname: moved, Proof: w.proof(owner, moved, 0)}); err == nil {
+						w.res.Violate("C30", "certificate-served/former-owner", "%s is bound to another client now; node %d still served the former owner", moved, a)
+					}
+				}
+				simrt.Probe("c30-binding-moved")
+			}
+		}
+	}
 	simrt.Probe("c30-checked")
 }
